@@ -256,6 +256,11 @@ def jitterOf [Mul α] [Zero α] {m : Nat} (lt : α → α → Bool) (jit : α) (
 def jitteredT [Add α] [Mul α] [Zero α] {m : Nat} (lt : α → α → Bool) (jit : α) (T : Mat α m m) : Mat α m m :=
   addJitter T (jitterOf lt jit T)
 
+/-- `Diagonalization.forward` AS IT IS: `torch.diag_embed(jitter_val * mins).expand_as(t_mat)` — `mins` has a trailing
+dimension of size 1, so `diag_embed` gives a 1×1 matrix that `expand_as` broadcasts to EVERY entry (open finding,
+notes/C09_fix_2.diff); the documented behaviour is `addJitter`. -/
+def addJitterAll [Add α] {m : Nat} (T : Mat α m m) (j : α) : Mat α m m := fun a b => T a b + j
+
 /-- `q_mat = q_mat.matmul(eigenvectors)` -/
 def qv [Add α] [Mul α] [Zero α] {m : Nat} (Q : Mat α n m) (V : Mat α m m) : Mat α n m := Mat.mul Q V
 
